@@ -5,7 +5,7 @@
    messages with their UIDs, order, content, dates and flags, and the invariants of C01/C02 still
    hold afterwards.  That the implementation's restart IS that step (every mutation is committed
    before the command completes) is decided by the correspondence/oracle runs of the check. *)
-From Asimap Require Import Base.Res Spec.SetSem Model.Mbox Model.Codec Proofs.CodecP Proofs.MboxInv Proofs.MboxStep Proofs.MboxLe.
+From Asimap Require Import Base.Res Spec.SetSem Model.Mbox Model.Codec Model.CodecText Proofs.CodecP Proofs.CodecTextP Proofs.MboxInv Proofs.MboxStep Proofs.MboxLe.
 From Coq Require Import Sorting.Sorted.
 Open Scope Z_scope.
 
@@ -16,6 +16,31 @@ Print Assumptions C12_persisted_lists_roundtrip.
 Theorem C12_runs_well_formed : forall l, Forall (fun r => fst r <= snd r) (compact_runs l).
 Proof. exact compact_wf. Qed.
 Print Assumptions C12_runs_well_formed.
+
+(* the same at the level of the TEXT that is written to the database (decimal numbers, "a-b" ranges,
+   commas; str.split, str.isdigit, int, sorted as Python does them, Model/CodecText.v): every strictly
+   ascending list of non-negative integers comes back exactly, two lists never share a text, what comes
+   back is always strictly ascending, and the text holds only digits, commas and dashes *)
+Theorem C12_persisted_text_roundtrip : forall l,
+  StronglySorted Z.lt l -> Forall (fun x => 0 <= x) l -> expand_text (compact_text l) = Some l.
+Proof. exact expand_compact_text. Qed.
+Print Assumptions C12_persisted_text_roundtrip.
+
+Theorem C12_persisted_text_injective : forall l1 l2,
+  StronglySorted Z.lt l1 -> Forall (fun x => 0 <= x) l1 ->
+  StronglySorted Z.lt l2 -> Forall (fun x => 0 <= x) l2 ->
+  compact_text l1 = compact_text l2 -> l1 = l2.
+Proof. exact compact_text_injective. Qed.
+Print Assumptions C12_persisted_text_injective.
+
+Theorem C12_expanded_text_ascending : forall s l, expand_text s = Some l -> StronglySorted Z.lt l.
+Proof. exact expand_text_sorted. Qed.
+Print Assumptions C12_expanded_text_ascending.
+
+Theorem C12_persisted_text_alphabet : forall l, Forall (fun x => 0 <= x) l -> StronglySorted Z.lt l ->
+  forallb seq_char (compact_text l) = true.
+Proof. exact compact_text_alphabet. Qed.
+Print Assumptions C12_persisted_text_alphabet.
 
 (* UID lists are strictly ascending in every reachable world (C02), so the round trip applies *)
 Theorem C12_restart_keeps_mailboxes : forall w n b,
@@ -32,3 +57,10 @@ Example C12_example :
   expand_runs (compact_runs [1; 3; 4; 5; 6; 9; 10]) = [1; 3; 4; 5; 6; 9; 10] /\
   compact_runs [1; 3; 4; 5; 6; 9; 10] = [(1, 1); (3, 6); (9, 10)].
 Proof. split; vm_compute; reflexivity. Qed.
+
+(* "1,3-6,9-10,120" and back; a malformed text raises *)
+Example C12_text_example :
+  compact_text [1; 3; 4; 5; 6; 9; 10; 120] = [49; 44; 51; 45; 54; 44; 57; 45; 49; 48; 44; 49; 50; 48] /\
+  expand_text [49; 44; 51; 45; 54; 44; 57; 45; 49; 48; 44; 49; 50; 48] = Some [1; 3; 4; 5; 6; 9; 10; 120] /\
+  expand_text [49; 45; 45; 50] = None /\ expand_text [32; 32] = Some [].
+Proof. repeat split; vm_compute; reflexivity. Qed.
